@@ -122,6 +122,14 @@ def ss_tcp_stream(legacy, key_arr, N, direction, K, name, request_salt=None):
     kid = ss_kid(legacy, key_arr, N, salt)
     if legacy:
         ss_chunks(kid, K, 0, s, name + '_P')
+        if direction == 'request':
+            # the request stream starts with the target address (SOCKS5 format); the receiver releases what follows it
+            s.raw_chunks = list(s.payloads)     # what a receiver without address handling (a reflecting client) releases
+            a, o, ln = s.payloads[0]
+            alen, wf = addr_len_ref(a, o)
+            s.constraints += [wf, z3.ULE(alen, ln)]
+            s.payloads[0] = (a, o + alen, ln - alen)
+            s.fields['addr'] = (a, o, alen)
         return s
     ts = z3.BitVec(name + '_ts', 64)
     s.fields['ts'] = ts
